@@ -91,6 +91,7 @@ func init() {
 
 func genC19(ctx *fw.Ctx) []fw.Case {
 	srcs := baseSources()
+	srcs = append(srcs, corpus.ClangSources(ctx.Thorough())...)
 	srcs = append(srcs, corpus.StressSources(ctx.Rand("stress"), ctx.Pick(20, 300), 20, 200)...)
 	srcs = append(srcs, mgenSources(ctx, ctx.Pick(60, 1500))...)
 	srcs = append(srcs, corpus.Source{ID: "synthetic/big-function", Text: func() (string, error) {
